@@ -13,7 +13,7 @@ func runC04(e *env) error {
 	r := e.r.Fork(4)
 	n, per := 2, 50
 	if e.thorough {
-		n, per = 8, 100
+		n, per = 8*e.scale, 100
 	}
 	plain := structuralBatches(e, r.Fork(1), n, per, []string{"useZeroValueOnPointerInconsistency"}, "deep-copy")
 	skip := structuralBatches(e, r.Fork(2), n, per, []string{"skipCopySameType", "skipCopySameType", "useZeroValueOnPointerInconsistency"}, "skipcopy")
